@@ -909,7 +909,14 @@ class ClientSession:
                                 "Invalid redirect URL origin",
                             ) from origin_val_err
 
-                        if url.origin() != redirect_origin:
+                        # An origin is scheme, host and effective port: yarl
+                        # compares the netloc text, where a spelled out
+                        # default port (http://host:80) makes a difference.
+                        if (url.scheme, url.raw_host, url.port) != (
+                            redirect_origin.scheme,
+                            redirect_origin.raw_host,
+                            redirect_origin.port,
+                        ):
                             cookies = None
                             headers.popall(hdrs.AUTHORIZATION, None)
                             headers.popall(hdrs.COOKIE, None)
